@@ -1055,7 +1055,73 @@ def build_depname(spec):
     return [f, lib], [f, lib]
 
 
+# ---- sibling sub-packages whose names are string prefixes of each other ------------------------------------------------------------
+PREFIX_SUBS = [["common", "common_ext"], ["admin", "admin_tools"], ["a", "ab", "abc"], ["common_ext", "common"], ["ab", "a", "abc"]]
+
+
+def prefixsub_spec(subs, svc_in, root_service=True, tr="grpc+rest"):
+    pkg = "acme.lib.v1"
+    return {"pkg": pkg, "prefixsub": {"subs": list(subs), "svc_in": list(svc_in), "root_service": root_service}, "dep_pkg": False, "sub": subs[0], "service_in_sub": True,
+            "service_yaml": False, "ads": False, "files": [], "opts": [f"transport={tr}", "autogen-snippets=false"], "transport": tr.split("+")}
+
+
+def build_prefixsub(spec):
+    """sibling proto sub-packages whose names are string prefixes of one another (`common` / `common_ext`; `a` / `ab` / `abc`), each with a
+    file of its own (a message and an enum), a service in the listed ones (and optionally one in the API package): every sub-package of
+    the emitted library holds the modules of ITS files only"""
+    c = spec["prefixsub"]
+    pkg = spec["pkg"]
+    files = []
+    for i, sub in enumerate(c["subs"]):
+        sp = f"{pkg}.{sub}"
+        f = apigen.File("/".join(sp.split(".")) + f"/{sub}_things.proto", sp)
+        m = f.msg(f"Thing{i}"); m.field("name"); f.enum(f"Kind{i}", [f"KIND{i}_UNSPECIFIED", f"ONE{i}"])
+        if sub in c["svc_in"]:
+            rq = f.msg(f"GetThing{i}Request"); rq.field("name", "string", 1)
+            f.service(f"Things{i}").method(f"GetThing{i}", rq, m, http=("get", "/v1/{name=things%d/*}" % i))
+        files.append(f)
+    if c["root_service"]:
+        lib = apigen.File("/".join(pkg.split(".")) + "/library.proto", pkg)
+        book = lib.msg("Book"); book.field("name")
+        rq = lib.msg("GetBookRequest"); rq.field("name", "string", 1)
+        lib.service("Library").method("GetBook", rq, book, http=("get", "/v1/{name=books/*}"))
+        files.append(lib)
+    return files, files
+
+
+def misplaced_module_oracle(ctx, res, api, files, targets, payload):
+    """ORACLE: every types module and every service package of the emitted library lies in the (sub-)package of the proto file that
+    declares it — no `<sub>/types/x.py` or `<sub>/services/<svc>/` for a file of ANOTHER (sub-)package, none missing (decided from
+    the input descriptors, not from the schema object)"""
+    from gapic import utils as _u
+    api_pkg = api.naming.proto_package
+    vroot = "/".join(list(api.naming.module_namespace) + api.naming.versioned_module_name.split("."))
+    want_types, want_svcs = set(), set()
+    if not all(f.package == api_pkg or f.package.startswith(api_pkg + ".") for f in _target_pbs(files, targets)):
+        # (no target file in the API package and sub-package names with a common string prefix: Naming takes the character-wise common
+        #  prefix `acme.lib.v1.common` for the API package; the layout question is C11's — not judged here, listed in the evidence)
+        ctx.count("layout_oracle", "skipped:target-file-outside-the-inferred-api-package")
+        return
+    for f in _target_pbs(files, targets):
+        sub = [x for x in f.package[len(api_pkg):].split(".") if x]
+        base = "/".join([vroot] + sub)
+        want_types.add(f"{base}/types/{_u.to_snake_case(_file_module(f))}.py")      # (a file without messages may still get a module: only the PLACE is judged)
+        for sv in f.service:
+            want_svcs.add(f"{base}/services/{_u.to_snake_case(sv.name)}")
+    got_types = {n for n in (x.name for x in res.file) if n.startswith(vroot + "/") and "/types/" in n and n.endswith(".py") and not n.endswith("__init__.py")}
+    got_svcs = {n.rsplit("/", 1)[0] for n in (x.name for x in res.file) if n.startswith(vroot + "/") and n.endswith("/client.py") and "/services/" in n}
+    ctx.count("layout_oracle", "checked")
+    for n in sorted(got_types - want_types):
+        ctx.fail("misplaced-module:types", f"{n} is emitted, but no target file of that (sub-)package declares it (expected types modules: {sorted(want_types)})", payload)
+    for n in sorted(got_svcs - want_svcs):
+        ctx.fail("misplaced-module:service", f"{n}/ is emitted, but no service of that (sub-)package exists (expected: {sorted(want_svcs)})", payload)
+    for n in sorted((want_svcs - got_svcs)):
+        ctx.fail("missing-module:service", f"{n}/ is not emitted", payload)
+
+
 def build(spec):
+    if "prefixsub" in spec:
+        return build_prefixsub(spec)
     if "depname" in spec:
         return build_depname(spec)
     if "coincide" in spec:
@@ -1236,6 +1302,8 @@ def run_case(ctx, spec, label):
         api, o = genrun.build_api(req)
         ex0 = api.all_library_settings[api.naming.proto_package].python_settings.experimental_features
         t2_proto_names(ctx, api, payload)
+        if not spec["ads"]:
+            misplaced_module_oracle(ctx, res, api, files, targets, payload)
         static_import_oracle(ctx, res, api, spec, payload)
         sample_import_oracle(ctx, res, api, payload)
         name_error_oracle(ctx, res, api, spec, payload)
@@ -1369,9 +1437,10 @@ def run(ctx):
                 "inside a nested message, LRO response/metadata, method input/output, page item, resource reference), the collision family (same-named "
                 "files in two packages of the API) and the namesake family (a nested message named like a top-level message, depth 1 or 2, using that "
                 "message's nested enum / message) and the dependency-namesake family (an API file called like the dependency file whose type it uses); "
-                "distinct by spec")
+                "sibling sub-packages named by string prefixes of each other (common / common_ext; a / ab / abc); distinct by spec")
     ctx.assume("the alternative (ads) template set offers no asyncio client or transport: for it only the synchronous surface is checked")
     ctx.assume("a proto package without a version segment has no proto sub-packages (Naming.build rejects `solo` + `solo.admin`)")
+    ctx.assume("sibling sub-packages named by string prefixes of each other are generated next to a target file in the API package itself")
     ctx.assume("Python's parser and importer are not modelled: `parses and imports` is decided by execution on every case")
     r = ctx.rng("general")
     t2_empty(ctx, ctx.rng("empty"))
@@ -1424,6 +1493,18 @@ def run(ctx):
         run_case(ctx, spec, f"depname{k}")
         ctx.count("depname", f"{base}:{where}:{use}")
         ctx.case({"depname": [base, where, use]} if k < 2 else None, distinct_key=["depname", base, where, use, spec["opts"][0]])
+    # sibling sub-packages whose names are string prefixes of each other, a service in some of them
+    rp = ctx.rng("prefixsub")
+    # (a file in the API package anchors the inferred package: without one, `common` + `common_ext` infer `acme.lib.v1.common`)
+    allp = [(subs, svc_in, True) for subs in PREFIX_SUBS for svc_in in ([subs[-1]], [subs[0]], list(subs), [])]
+    fixedp = [(PREFIX_SUBS[0], ["common_ext"], True), (PREFIX_SUBS[2], ["ab", "abc"], True)]
+    restp = [v for v in allp if v not in fixedp]
+    rp.shuffle(restp)
+    for k, (subs, svc_in, rs) in enumerate(fixedp + restp[:ctx.n(2, len(restp))]):
+        spec = prefixsub_spec(subs, svc_in, rs, tr=rp.pick(["grpc", "rest", "grpc+rest"]))
+        run_case(ctx, spec, f"prefixsub{k}")
+        ctx.count("prefixsub", "+".join(subs))
+        ctx.case({"prefixsub": [subs, svc_in, rs]} if k < 2 else None, distinct_key=["prefixsub", subs, svc_in, rs, spec["opts"][0]])
     # one file references another in exactly one way (map value, oneof member, nested field, LRO type, method input/output, ...)
     ro = ctx.rng("only-ref")
     matrix = only_ref_matrix()
